@@ -5,6 +5,7 @@ import random
 
 PID = "C20"
 LEVEL = "exploration"
+STRICT_WORKER_DEATH = True  # a crash of the worker is an observation about this property
 RULE = (
     "a case is one solver history (C11/C12 step alphabet incl. branch, queries with extra constraints, is_true / "
     "is_false) run by one of 2..16 real threads that start together on a barrier, each thread on its own solver "
